@@ -1118,7 +1118,7 @@ func Retract(vm *VM, t Term, k Cont, env *Env) *Promise {
 		if c.raw == nil { // The rest of the previous clause.
 			continue
 		}
-		cp, err := renamedCopy(c.raw, nil, env)
+		cp, err := renamedCopy(c.raw, nil, nil) // The stored term is not subject to the bindings of the caller.
 		if err != nil {
 			return Error(err)
 		}
@@ -2018,7 +2018,7 @@ func Clause(vm *VM, head, body Term, k Cont, env *Env) *Promise {
 		if c.raw == nil { // The rest of the previous clause.
 			continue
 		}
-		cp, err := renamedCopy(c.raw, nil, env)
+		cp, err := renamedCopy(c.raw, nil, nil) // The stored term is not subject to the bindings of the caller.
 		if err != nil {
 			return Error(err)
 		}
